@@ -136,6 +136,7 @@ func (d *Ledger) recordMid(kind string, shard int, c *world.Call, mid int, dup b
 		preSnd = a.Clone(nil)
 	}
 	conc := world.Describe(kind, shard, c, mid)
+	conc["dup"] = dup
 	if kind == "deliver" {
 		r, _ = d.W.Deliver(mid, dup)
 	} else {
@@ -897,9 +898,7 @@ func (d *Ledger) ownerOf(sc string) string {
 func (d *Ledger) actOracle() {
 	a := d.anyAcct()
 	v := []string{"yes", "no", "err", "yes"}[d.R.Intn(4)]
-	d.W.SetOracle(d.W.Addr(a), v)
-	ev := world.AEvent{A: "oracle", Key: a, Val: v, Res: "ok"}
-	d.T.Write(&world.ALine{Ev: ev, W: d.P.World()}, map[string]interface{}{"kind": "oracle", "addr": a, "val": v})
+	d.setOracle(a, v)
 }
 
 func (d *Ledger) actMalformed() {
@@ -1061,6 +1060,35 @@ func (d *Ledger) Drain() {
 		}
 		d.actDeliver()
 	}
+}
+
+// schedOK is the harness's own acceptance rule: every one of the 22 entries present and non-zero.
+func schedOK(g map[string]map[string]uint64) bool {
+	std := world.StdGas(0)
+	for sec, m := range std {
+		for k := range m {
+			if g[sec] == nil || g[sec][k] == 0 {
+				return false
+			}
+		}
+	}
+	return true
+}
+
+func (d *Ledger) setSched(g map[string]map[string]uint64) {
+	ok := schedOK(g)
+	d.W.Reprice(g)
+	if ok {
+		d.W.Sched = world.CloneGas(g)
+	}
+	ev := world.AEvent{A: "sched", SchOK: ok, Res: "ok"}
+	d.T.Write(&world.ALine{Ev: ev, W: d.P.World()}, map[string]interface{}{"kind": "sched", "sched": g})
+}
+
+func (d *Ledger) setEpoch(e uint32) {
+	d.W.ConfirmEpoch(e)
+	ev := world.AEvent{A: "epoch", Res: "ok"}
+	d.T.Write(&world.ALine{Ev: ev, W: d.P.World()}, map[string]interface{}{"kind": "epoch", "epoch": e})
 }
 
 func (d *Ledger) replicas(kind string, shard int, c *world.Call, mid int, dup bool, r *world.StepResult, ev *world.AEvent) {
